@@ -731,10 +731,18 @@ func finish(prop string, tier, seed int, partial bool, results []HarnessResult, 
 				byIdx[o.Idx] = o
 			}
 			// counterexamples that end in a call blocking forever are replayed one per process
+			solo := 0
 			for i, c := range cases {
 				if !c.Skip {
 					continue
 				}
+				if solo >= 4 && refs[i].viol != nil && !refs[i].knwn {
+					// each solo replay costs a process start (and 5 s for a hang): four
+					// confirmed counterexamples of one run are reported, further ones dropped
+					byIdx[i] = nativeOut{Idx: i, Outcome: "dropped"}
+					continue
+				}
+				solo++
 				c.Skip = false
 				o1, log1, err1 := runNative([]nativeCase{c}, names, prop+"-"+tierName+"-solo")
 				if err1 != nil || len(o1) != 1 {
@@ -782,6 +790,9 @@ func finish(prop string, tier, seed int, partial bool, results []HarnessResult, 
 						reproduced = o.Outcome == "assert" && o.Msg == ref.viol.Msg
 					}
 					d := replayDoc{Tier: tier, Property: prop, Harness: ref.res.Name, Kind: ref.viol.Kind, Msg: ref.viol.Msg, Where: ref.viol.Where, Vector: ref.viol.Vector, Native: o.Outcome + ": " + o.Msg}
+					if o.Outcome == "dropped" {
+						continue
+					}
 					if ref.knwn {
 						what := ref.viol.Msg
 						for _, k := range known {
